@@ -230,7 +230,19 @@ pub fn coll_cases(prop: &str, r: &mut Rng, n: usize) {
         let sc = gen_scene(r, &q);
         let kin = sc.ks.build();
         let omode = *r.pick(&[CheckMode::AllCollsions, CheckMode::FirstCollisionOnly, CheckMode::NoCheck]);
-        let (_, other) = gen_safety(r, sc.body.collision_environment.len(), sc.body.tool.is_some(), sc.body.base.is_some(), omode);
+        let (_, mut other) = gen_safety(r, sc.body.collision_environment.len(), sc.body.tool.is_some(), sc.body.base.is_some(), omode);
+        // pairs that really touch, marked never-colliding ONLY in the table handed to `near` (or by its default distances)
+        if r.chance(0.3) {
+            let probe = SafetyDistances::standard(CheckMode::AllCollsions);
+            let hits = sc.body.near(&q, kin.as_ref(), &probe);
+            for (a, b) in hits {
+                let (a, b) = (a as u16, b as u16);
+                if other.special_distances.contains_key(&(a, b)) || other.special_distances.contains_key(&(b, a)) { continue; }
+                if r.chance(0.6) { if r.chance(0.5) { other.special_distances.insert((a, b), NEVER_COLLIDES); } else { other.special_distances.insert((b, a), NEVER_COLLIDES); } }
+            }
+            if r.chance(0.2) { other.to_robot_default = NEVER_COLLIDES; }
+            if r.chance(0.1) { other.to_environment = NEVER_COLLIDES; }
+        }
         for pool in [1usize, 2, 4, 16] {
             let mut l = Line::new(prop, &sc.fam, "coll");
             sc.ks.encode(&mut l);
